@@ -89,7 +89,8 @@ impl Monitor for C20 {
 
 pub fn profile() -> Profile {
     let mut p = Profile::general();
-    p.net_w = [45, 25, 30, 0, 0, 0, 0, 0, 0];
+    p.net_w = [40, 22, 26, 12, 0, 0, 0, 0, 0];
+    p.p_teleport = 1;
     p.p_mut = 25;
     p.grandfathered_faucet = true;
     p.warp = true;
@@ -103,7 +104,7 @@ pub fn run(ctx: &Ctx) -> (Outcome, String, Option<bool>) {
         p.max_txs = 10;
     }
     let out = super::hist::run_histories(ctx, "histories", p, ctx.scale(900, 9000), C20::default);
-    let rule = "Generated histories on Custom02/Custom08 (TIP-906 active from genesis) and Testnet (30%; a share of them fast-forwarded with empty blocks to just below height 500 so that the activation is crossed with coins in place): all transaction kinds, child-first batches, pool settlements, proposer rewards, faucet markers. Oracle: invariant read through the cfg(melstf_verif) view after genesis, every accepted batch, every seal and every block opening: the raw coin tree is partitioned into coin entries and count entries; for every covenant hash the count entry equals the number of coin entries, no count entry exists without coins, none exist before activation, and no unexplained entry exists. Non-trivial = history with >=1 pool settlement or proposer reward and >=1 spend; distinct by the sequence of coin roots.".to_string();
+    let rule = "Generated histories on Custom02/Custom08 (TIP-906 active from genesis) and Testnet (26%; a share of them fast-forwarded with empty blocks to just below height 500 so that the activation is crossed with coins in place) and Mainnet (12%; height jumps land one block below 830 000 and the activation is crossed honestly): all transaction kinds, child-first batches, pool settlements, proposer rewards, faucet markers. Oracle: invariant read through the cfg(melstf_verif) view after genesis, every accepted batch, every seal and every block opening: the raw coin tree is partitioned into coin entries and count entries; for every covenant hash the count entry equals the number of coin entries, no count entry exists without coins, none exist before activation, and no unexplained entry exists. Non-trivial = history with >=1 pool settlement or proposer reward and >=1 spend; distinct by the sequence of coin roots.".to_string();
     (out, rule, None)
 }
 
